@@ -26,13 +26,22 @@ namespace nmtools::index
             if constexpr (meta::is_index_array_v<axes_t>) {
                 auto in_axis = static_cast<bool>(
                     index::count([&](const auto ii){
-                        using common_t = meta::promote_index_t<decltype(ii),size_t>;
-                        return (common_t)ii == (common_t)i;
+                        // negative axis counts from the last axis
+                        auto axis = (nm_index_t)ii;
+                        if (axis < 0) {
+                            axis += (nm_index_t)dim;
+                        }
+                        return (nm_index_t)axis == (nm_index_t)i;
                     }, axes)
                 );
                 nmtools::get<2>(at(result,i)) = in_axis ? -1 : 1;
             } else if constexpr (meta::is_index_v<axes_t>) {
-                nmtools::get<2>(at(result,i)) = ((size_t)axes == i) ? -1 : 1;
+                // negative axis counts from the last axis
+                auto axis = (nm_index_t)axes;
+                if (axis < 0) {
+                    axis += (nm_index_t)dim;
+                }
+                nmtools::get<2>(at(result,i)) = ((nm_index_t)axis == (nm_index_t)i) ? -1 : 1;
             } else if constexpr (is_none_v<axes_t>) {
                 nmtools::get<2>(at(result,i)) = -1;
             }
